@@ -17,25 +17,19 @@ Definition nested' : value :=
 Lemma eq_refl_refuted : exists v, veq v v = false.
 Proof. exists qnan. vm_compute. reflexivity. Qed.
 
+(* after fix: commit 668536e1 only NaN is left: cmp says Equal for values that are != *)
 Lemma ord_consistent_refuted :
-  (exists a b, has_nan a = false /\ has_nan b = false /\ vcmp a b = Eq /\ veq a b = false) /\   (* signatures *)
-  (exists a b, wfb a = true /\ wfb b = true /\ has_nan a = false /\ has_nan b = false /\ vcmp a b = Eq /\ veq a b = false) /\
-  (exists a, vcmp a a = Eq /\ veq a a = false).                                                  (* NaN *)
+  (exists a, vcmp a a = Eq /\ veq a a = false) /\
+  (exists a b, wfb a = true /\ wfb b = true /\ vcmp a b = Eq /\ veq a b = false /\ vhash a <> vhash b).
 Proof.
-  split; [|split].
-  - exists (VSig SU8), (VSig SBool). vm_compute. auto.
-  - exists (VArray SU8 []), (VArray SBool []). vm_compute. repeat split; reflexivity.
+  split.
   - exists qnan. vm_compute. auto.
+  - exists (arr_d qnan), (arr_d f_one). vm_compute. repeat split; try reflexivity. discriminate.
 Qed.
 
 Lemma ord_trans_refuted :
-  (exists a b c, vcmp a b = Eq /\ vcmp b c = Eq /\ vcmp a c = Lt /\ has_nan a = false /\ has_nan b = false /\ has_nan c = false) /\
-  (exists a b c, vcmp a b = Eq /\ vcmp b c = Eq /\ vcmp a c = Lt /\ any_clash [a; b; c] = false).
-Proof.
-  split.
-  - exists (VSig (SStruct [SU8])), (VSig SU8), (VSig (SStruct [SU8; SU8])). vm_compute. repeat split; reflexivity.
-  - exists (arr_d f_one), (arr_d qnan), (arr_d f_two). vm_compute. repeat split; reflexivity.
-Qed.
+  exists a b c, wfb a = true /\ wfb b = true /\ wfb c = true /\ vcmp a b = Eq /\ vcmp b c = Eq /\ vcmp a c = Lt.
+Proof. exists (arr_d f_one), (arr_d qnan), (arr_d f_two). vm_compute. repeat split; reflexivity. Qed.
 
 Lemma pcmp_refuted : exists a b, vpcmp a b = None /\ vpcmp a b <> Some (vcmp a b).
 Proof. exists (arr_d qnan), (arr_d f_one). vm_compute. split; [reflexivity|discriminate]. Qed.
@@ -63,11 +57,13 @@ Proof.
   - exists (SStruct [SStruct [SVariant]]), (XTup [XTup [XVal (VU8 1)]]). split; reflexivity.
 Qed.
 
-(* a consequence of Signature::cmp for Dict: the second insert overwrites the first entry's value, keeping its key *)
-Lemma dict_sigkey_refuted :
-  exists d1 d2, dict_append (VDict SSig SU8 []) (VSig SU8) (VU8 1) = Ok d1 /\
-                dict_append d1 (VSig SBool) (VU8 2) = Ok d2 /\ d2 = VDict SSig SU8 [(VSig SU8, VU8 2)].
-Proof. eexists. eexists. vm_compute. repeat split; reflexivity. Qed.
+(* Signature's Ord is now a total order consistent with its == (it is the reference order on signatures) *)
+Lemma sig_ord_total :
+  (forall a b, sig_cmp b a = CompOpp (sig_cmp a b)) /\
+  (forall a b c, T4 (sig_cmp a b) (sig_cmp b c) (sig_cmp a c)) /\
+  (forall a b, sig_cmp a b = Eq <-> sig_eqb a b = true) /\
+  (forall a b, sig_eqb a b = true <-> a = b).
+Proof. exact (conj sig_cmp_dual (conj sig_cmp_T4 (conj sig_cmp_Eq sig_eqb_eq))). Qed.
 
 Lemma full_statement_refuted : ~ C08_full_statement.
 Proof.
@@ -76,13 +72,15 @@ Qed.
 
 (* ---------------------------------------------------------------- outside the known classes ---- *)
 Lemma Known_inv a b c : Known_C08 [a; b; c] = false ->
-  (nf a /\ nf b /\ nf c) /\
-  (clash a a = false /\ clash a b = false /\ clash a c = false /\ clash b a = false /\ clash b b = false /\
-   clash b c = false /\ clash c a = false /\ clash c b = false /\ clash c c = false) /\
-  (has_fd a = false /\ has_fd b = false /\ has_fd c = false).
-Proof.
-  unfold Known_C08, any_clash, nf. simpl. rewrite !orb_false_iff. intuition.
-Qed.
+  (nf a /\ nf b /\ nf c) /\ (has_fd a = false /\ has_fd b = false /\ has_fd c = false).
+Proof. unfold Known_C08, nf. simpl. rewrite !orb_false_iff. intuition. Qed.
+
+Lemma ord_consistent_partial a b : has_nan a = false -> has_nan b = false -> (vcmp a b = Eq <-> veq a b = true).
+Proof. intros. rewrite vcmp_agree by assumption. apply icmp_Eq; assumption. Qed.
+
+Lemma ord_trans_partial a b c : has_nan a = false -> has_nan b = false -> has_nan c = false ->
+  T4 (vcmp a b) (vcmp b c) (vcmp a c).
+Proof. intros. rewrite !vcmp_agree by assumption. apply icmp_T4. Qed.
 
 Theorem laws_partial : forall a b c, Known_C08 [a; b; c] = false ->
   (* == *)
@@ -97,32 +95,13 @@ Theorem laws_partial : forall a b c, Known_C08 [a; b; c] = false ->
   (* signature *)
   (wfb a = true -> has_type (value_signature a) a).
 Proof.
-  intros a b c K. apply Known_inv in K as ((Na & Nb & Nc) & (Caa & Cab & Cac & Cba & Cbb & Cbc & Cca & Ccb & Ccc) & (Fa & Fb & Fc)).
-  repeat split.
-  - apply veq_refl. exact Na.
-  - apply veq_sym.
-  - apply veq_trans.
-  - apply vcmp_dual.
-  - rewrite !vcmp_agree by assumption. apply (proj1 (icmp_T4 a b c)).
-  - rewrite !vcmp_agree by assumption. apply (proj1 (proj2 (icmp_T4 a b c))).
-  - rewrite !vcmp_agree by assumption. apply (proj1 (proj2 (proj2 (icmp_T4 a b c)))).
-  - rewrite !vcmp_agree by assumption. apply (proj2 (proj2 (proj2 (icmp_T4 a b c)))).
-  - rewrite vcmp_agree by assumption. apply icmp_Eq; assumption.
-  - rewrite vcmp_agree by assumption. apply icmp_Eq; assumption.
-  - apply vpcmp_vcmp; assumption.
-  - apply veq_hash.
-  - apply try_clone_fdfree. exact Fa.
-  - apply try_to_owned_fdfree. exact Fa.
-  - apply wfb_has_type.
+  intros a b c K. apply Known_inv in K as ((Na & Nb & Nc) & (Fa & Fb & Fc)).
+  split; [apply veq_refl; exact Na|]. split; [apply veq_sym|]. split; [apply veq_trans|].
+  split; [apply vcmp_dual|]. split; [apply ord_trans_partial; assumption|].
+  split; [apply ord_consistent_partial; assumption|]. split; [apply vpcmp_vcmp; assumption|].
+  split; [apply veq_hash|]. split; [|apply wfb_has_type].
+  intros os k. split; [apply try_clone_fdfree | apply try_to_owned_fdfree]; exact Fa.
 Qed.
-
-Lemma ord_consistent_partial a b : has_nan a = false -> has_nan b = false -> clash a b = false ->
-  (vcmp a b = Eq <-> veq a b = true).
-Proof. intros. rewrite vcmp_agree by assumption. apply icmp_Eq; assumption. Qed.
-
-Lemma ord_trans_partial a b c : has_nan a = false -> has_nan b = false -> has_nan c = false ->
-  clash a b = false -> clash b c = false -> clash a c = false -> T4 (vcmp a b) (vcmp b c) (vcmp a c).
-Proof. intros. rewrite !vcmp_agree by assumption. apply icmp_T4. Qed.
 
 Lemma clone_eq_partial os v k r k' : has_nan v = false -> has_fd v = false ->
   (try_clone os v k = Ok (r, k') \/ try_to_owned os v k = Ok (r, k')) -> veq r v = true /\ r = v.
@@ -138,8 +117,16 @@ Proof. split; [vm_compute; reflexivity|]. split; [discriminate|]. apply veq_hash
 Example ex_known_free : Known_C08 [nested; nested'; VArray SU8 []] = false /\ wfb nested = true.
 Proof. vm_compute. split; reflexivity. Qed.
 
-Example ex_clash : clash (VArray SU8 []) (VArray SBool []) = true /\ clash (VArray SU8 [VU8 1]) (VArray SU8 [VU8 2]) = false.
-Proof. vm_compute. split; reflexivity. Qed.
+(* was a defect before fix: commit 668536e1 (the second append overwrote the first entry): a Dict keyed by signatures
+   now keeps both entries, ordered by kind *)
+Example ex_dict_sigkeys :
+  exists d1, dict_append (VDict SSig SU8 []) (VSig SU8) (VU8 1) = Ok d1 /\
+             dict_append d1 (VSig SBool) (VU8 2) = Ok (VDict SSig SU8 [(VSig SU8, VU8 1); (VSig SBool, VU8 2)]).
+Proof. eexists. vm_compute. split; reflexivity. Qed.
+
+Example ex_sig_order : vcmp (VSig SU8) (VSig SBool) = Lt /\ vcmp (VArray SU8 []) (VArray SBool []) = Lt /\
+                       vcmp (VSig (SStruct [SU8])) (VSig SU8) = Gt.
+Proof. vm_compute. repeat split; reflexivity. Qed.
 
 Example ex_conv :
   let x := XMap SStr (SArray SVariant) [(XStr (B "a"), XVec SVariant [XVal (VU8 1); XVal (VValue (VStr (B "x")))]);
